@@ -129,7 +129,7 @@ func effectFindings(c *core.Ctx, fn *an.Fn) []string {
 }
 
 func runC16(c *core.Ctx) {
-	c.Rule("R1", "spread-minimising generation is a pure function of (instance index, zone index)", 10)
+	c.Rule("R1", "spread-minimising generation is a pure function of (instance index, zone index)", 16)
 	c.Rule("R2", "rejection sampling against the complete taken set; only the filtered slice is returned; sorted result", 8)
 	c.Rule("R3", "partition tokens come from the spread-minimising generator (id, zone 0, nothing taken)", 1)
 	c.Rule("R4", "token counter and appended tokens agree on every path of the placement loop", 1)
